@@ -43,6 +43,7 @@ type c10Exchange struct {
 }
 
 type c10Party struct {
+	All       [][]byte    // every draw of the randomness source, in order (SMP exponents are found among them by verification)
 	Seen      int         // randomness log entries looked at
 	Exps      [][]byte    // all 40-byte draws, in order
 	Rs        [][]byte    // all 16-byte draws
@@ -69,6 +70,9 @@ type monC10 struct {
 	Checked  int
 	ByKind   []int // per message kind: number re-derived
 	ExtraOut [][]byte
+	SMP      ref.SMPRun // the SMP run in progress, followed from the TLVs on the wire
+	SMPInit  int        // who started it
+	SMPSeen  int        // SMP messages re-derived
 }
 
 func (m *monC10) bump(kind int) {
@@ -82,6 +86,7 @@ func (m *monC10) bump(kind int) {
 func c10Absorb(pt *c10Party, p *verifPrincipal) {
 	for ; pt.Seen < len(p.R.Log); pt.Seen++ {
 		d := p.R.Log[pt.Seen].Out
+		pt.All = append(pt.All, d)
 		switch len(d) {
 		case 40:
 			pt.Exps = append(pt.Exps, d)
@@ -370,6 +375,23 @@ func c10CheckData(w *verifWorld, i int, raw []byte, fromSend []byte) (fs []verif
 	for _, t := range tlvs {
 		if t.Type == 8 {
 			m.ExtraOut = append(m.ExtraOut, k.Extra)
+		}
+		if t.Type >= 2 && t.Type <= 7 && t.Type != 6 {
+			// SMP: verified and re-derived by the independent implementation from the sender's randomness log
+			if t.Type == 2 || t.Type == 7 {
+				m.SMPInit = i
+				fpI, fpR := c10RefPub(w.P[i].C.ourKeys[0].PublicKey()).Fingerprint(), c10RefPub(w.P[1-i].C.ourKeys[0].PublicKey()).Fingerprint()
+				m.SMP = ref.SMPRun{InitFP: fpI, RespFP: fpR, SSID: me.Ex.SSID, Secret: []byte("s")}
+			}
+			c10Absorb(me, pr)
+			for _, problem := range m.SMP.Check(t, i == m.SMPInit, me.All) {
+				bad("smp", "SMP TLV %d: %s", t.Type, problem)
+			}
+			if t.Type == 7 && string(m.SMP.Question) != "q" {
+				bad("smp", "SMP1Q carries the question %q, the user asked %q", m.SMP.Question, "q")
+			}
+			m.SMPSeen++
+			verifCount(fmt.Sprintf("c10_smp_tlv_%d_rederived", t.Type), 1)
 		}
 	}
 	// byte-exact reconstruction of the whole message from the derived keys
@@ -881,9 +903,9 @@ func init() {
 			return verifC10Sys(id, seed)
 		},
 		Run: func(r *verifReport) {
-			r.Rule = "(a) explicit-state exploration of honest session histories from the query on (one or both sides asking, texts both ways with key rotation, SMP, extra symmetric key, End; fragmented or not; every delivery interleaving): EVERY emitted message is parsed by the independent implementation verifref (standard library only, written from the specification) and re-derived from both sides' secrets, which are found in the logs of the randomness sources by verification (g^d, commitment hash), never by call site: commit hash and ciphertext, D-H key, SSID, c/c', m1/m1', m2/m2', the decrypted signature block (long-term key, key id, DSA signature validity over M), data-message key ids per the specification's ratchet, next D-H key, counter, session keys with the high/low-end rule, MAC, plaintext layout, extra symmetric key, and the whole data message rebuilt byte for byte; (b) a reference peer written from the specification talks to the real conversation in both exchange roles: all interleavings of texts both ways, extra-key requests both ways and End: everything the reference builds must be accepted and read exactly, and vice versa; SSID, fingerprint and extra keys must agree"
-			r.Assumptions = []string{"verifref shares with otr3 only the Go standard library (crypto/dsa, aes, sha, hmac); it does not implement SMP (the SMP proofs are not re-derived independently)", "signature bytes are verified, not re-derived (DSA is randomised)"}
-			idsA := []string{"v3/f0/S2/nosmp", "v2/f0/S1/smp", "v3/f200/S1/nosmp", "v3/f0/S2/refresh", "v2/f0/S1/refresh", "v3/f0/S2/tiny", "v2/f0/S2/tiny"}
+			r.Rule = "(a) explicit-state exploration of honest session histories from the query on (one or both sides asking, texts both ways with key rotation, SMP, extra symmetric key, End; fragmented or not; every delivery interleaving): EVERY emitted message is parsed by the independent implementation verifref (standard library only, written from the specification) and re-derived from both sides' secrets, which are found in the logs of the randomness sources by verification (g^d, commitment hash), never by call site: commit hash and ciphertext, D-H key, SSID, c/c', m1/m1', m2/m2', the decrypted signature block (long-term key, key id, DSA signature validity over M), data-message key ids per the specification's ratchet, next D-H key, counter, session keys with the high/low-end rule, MAC, plaintext layout, extra symmetric key, and the whole data message rebuilt byte for byte; every SMP TLV (1, 1Q, 2, 3, 4) is parsed (MPI counts, minimal MPIs), its group elements and D values range-checked, its zero-knowledge proofs verified with the specification's equations, and its values re-derived from the sender's randomness log: g2a, g3a, g2b, g3b as g1^x for logged x, c/D pairs as H(i, g1^r), r - x*c mod q for logged r, Pa/Pb = g3^r4, Qa/Qb = g1^r4 * g2^secret with secret = SHA256(1, initiator fingerprint, responder fingerprint, ssid, user secret), Ra/Rb = (Qa/Qb)^a3/b3, and Rb^a3 = Pa/Pb for equal secrets; (b) a reference peer written from the specification talks to the real conversation in both exchange roles: all interleavings of texts both ways, extra-key requests both ways and End: everything the reference builds must be accepted and read exactly, and vice versa; SSID, fingerprint and extra keys must agree"
+			r.Assumptions = []string{"verifref shares with otr3 only the Go standard library (crypto/dsa, aes, sha, hmac, math/big)", "signature bytes are verified, not re-derived (DSA is randomised)"}
+			idsA := []string{"v3/f0/S2/nosmp", "v2/f0/S1/smp", "v3/f0/S1/smp", "v3/f200/S1/nosmp", "v3/f0/S2/refresh", "v2/f0/S1/refresh", "v3/f0/S2/tiny", "v2/f0/S2/tiny"}
 			idsB := []string{"peer/v3/refinit/f0/S2", "peer/v3/realinit/f0/S1", "peer/v2/refinit/f0/S1", "peer/v2/realinit/f150/S1"}
 			if r.Tier == "thorough" {
 				idsA = []string{"v2/f150/S1/smp", "v3/f200/S2/nosmp", "v2/f0/S2/refresh", "v3/f0/S2/refresh", "v2/f0/S2/smp", "v3/f0/S3/nosmp", "v3/f0/S3/tiny", "v2/f0/S3/tiny"}
